@@ -25,15 +25,16 @@ func c02Merge(state, u interface{}) (next interface{}, err error) {
 }
 
 type c02Gen struct {
-	id      string
-	query   string
-	results []interface{} // results of the successful runs, in order
-	updates []interface{} // messages of the update envelopes, in order
-	kinds   []string      // types of all envelopes written for it
-	ended   bool
-	execs   int  // resolver entries of its runs
-	unsub   bool // the client asked to end it
-	lastExec, lastResult int // sequence numbers of its last resolver entry and its last successful run
+	id                   string
+	query                string
+	results              []interface{} // results of the successful runs, in order
+	resAt                []int         // how many updates had been written when each result was recorded
+	updates              []interface{} // messages of the update envelopes, in order
+	kinds                []string      // types of all envelopes written for it
+	ended                bool
+	execs                int  // resolver entries of its runs
+	unsub                bool // the client asked to end it
+	lastExec, lastResult int  // sequence numbers of its last resolver entry and its last successful run
 }
 
 // c02Split cuts the recording into subscription generations (Subscribe .. Unsubscribe), up to the
@@ -66,6 +67,7 @@ func c02Split(events []cnEvent) []*c02Gen {
 		case "result":
 			if g := cur[e.ID]; g != nil {
 				g.results = append(g.results, e.Data)
+				g.resAt = append(g.resAt, len(g.updates))
 				g.lastResult = e.Seq
 			}
 		case "exec":
@@ -141,8 +143,19 @@ func c02One(c *Ctx, m *Model, cs cnCase) {
 		}
 		// the client: start from nothing, merge every update in order
 		var state interface{}
-		for _, u := range g.updates {
-			next, err := c02Merge(state, u)
+		k := 1
+		for j := 0; j <= len(g.updates); j++ {
+			// when run k delivered its result, the client had caught up with run k-1
+			for ; k < len(g.results) && g.resAt[k] == j; k++ {
+				if prev := cnStripKeys(g.results[k-1]); Canon(state) != Canon(prev) {
+					rep.Fail("impl_ne_spec", nil, cs, map[string]interface{}{"what": "after the updates of one run the client state differs from that run's result (keys removed)", "client": state, "result": prev, "run": k - 1, "id": g.id, "query": g.query})
+					return
+				}
+			}
+			if j == len(g.updates) {
+				break
+			}
+			next, err := c02Merge(state, g.updates[j])
 			if err != nil {
 				rep.Fail("impl_ne_spec", nil, cs, map[string]interface{}{"what": "the client cannot apply an update", "error": err.Error(), "id": g.id})
 				return
@@ -219,7 +232,7 @@ func runC02(c *Ctx) error {
 		return err
 	}
 	defer m.Close()
-	c.Rep.Rule = "random histories of subscribe / unsubscribe / mutate / data change (scalars, list items appearing, disappearing and reordering by key, nested objects becoming null and back, union member switches) / resolver failures on a real conn over a fake socket, 5 queries, ids colliding on purpose; per subscription the update envelopes are merged by merge.Merge starting from nothing and compared (a) with the key-stripped result of its last run, (b) at quiescence with a fresh execution of the query on the final data; the Lean subscription model predicts every update message from the recorded results of the runs; first envelope is an update (or the single error of a failing subscription); no envelope after the end of its subscription; no unsafe error text in any envelope"
+	c.Rep.Rule = "random histories of subscribe / unsubscribe / mutate / data change (scalars, list items appearing, disappearing and reordering by key, nested objects becoming null and back, union member switches, a member with a null object field) / a re-run failing once and recovering without a further change / resolver failures on a real conn over a fake socket, 5 queries, ids colliding on purpose; per subscription the update envelopes are merged by merge.Merge starting from nothing and compared (a) with the key-stripped result of its last run, (b) at quiescence with a fresh execution of the query on the final data; the Lean subscription model predicts every update message from the recorded results of the runs; first envelope is an update (or the single error of a failing subscription); no envelope after the end of its subscription; no unsafe error text in any envelope"
 	c.Rep.Assumptions = append(c.Rep.Assumptions,
 		"a client that applies updates in order (the fake socket preserves order)",
 		"the JavaScript client is covered by C03's check")
@@ -239,6 +252,22 @@ func runC02(c *Ctx) error {
 		}
 		fmt.Printf("replay (10 re-executions): %d failures\n", len(c.Rep.Failures))
 		return nil
+	}
+	// directed: a re-run that fails once (plainly / with a client-safe error) and recovers without any further change
+	for _, mode := range []int64{1, 2} {
+		for _, two := range []bool{false, true} {
+			acts := []cnAction{{Op: "subscribe", ID: 1, Query: 4}}
+			if two {
+				acts = append(acts, cnAction{Op: "subscribe", ID: 2, Query: 0})
+			}
+			acts = append(acts, cnAction{Op: "settle"}, cnAction{Op: "failOnce", Arg: mode}, cnAction{Op: "settle"}, cnAction{Op: "echo", ID: 3})
+			c02One(c, m, cnCase{Seed: uint64(7 + mode), Actions: acts})
+		}
+	}
+	// directed: union member switches between members without keys, the new member carrying a null object field
+	for _, q := range []int{2, 3} {
+		c02One(c, m, cnCase{Seed: 11, Actions: []cnAction{{Op: "subscribe", ID: 1, Query: q}, {Op: "settle"}, {Op: "change", Arg: 13}, {Op: "settle"},
+			{Op: "change", Arg: 37}, {Op: "settle"}, {Op: "change", Arg: 13 + 56}, {Op: "settle"}, {Op: "change", Arg: 37 + 8}, {Op: "settle"}, {Op: "change", Arg: 37}, {Op: "settle"}}})
 	}
 	n := c.N(150, 4000)
 	for i := 0; i < n && !c.Rep.ShouldStop(); i++ {
